@@ -1,7 +1,7 @@
 (* C06 - Publication delivers each accepted message exactly once per subscriber.
    Property theorems only.  Model: Model/Pub.v (labelled transition system; "for every schedule,
    every workload" = for every state reachable by any label sequence). *)
-From Coq Require Import List Arith Bool Lia.
+From Coq Require Import List Arith Bool Lia ZArith.
 From TC.Model Require Import Pub.
 From TC.Proofs Require Import PubInv PubC06.
 Import ListNotations.
@@ -83,8 +83,8 @@ End C06.
 (* ---------- non-vacuity: concrete runs ---------- *)
 Definition ex_even (m : nat) : bool := Nat.even m.
 Definition ex_run : list (label nat) :=
-  [ Subscribe 1 (fun _ => true) 100 false false;      (* s0: buffer 1, no filter *)
-    Subscribe 0 ex_even 100 true true;                 (* s1: unbuffered, even messages only *)
+  [ Subscribe 1 (fun _ => true) 100%Z false false;      (* s0: buffer 1, no filter *)
+    Subscribe 0 ex_even 100%Z true true;                 (* s1: unbuffered, even messages only *)
     PubBegin 4; Visit 0 0; Visit 0 1; PubEnd 0;
     PubBegin 5; Visit 1 1; Visit 1 0; PubEnd 1;
     Enter 0 0; Enter 0 1; Enter 1 0;
